@@ -25,7 +25,7 @@ W = [(0, 0), (1, 0), (0, 2), (1, 2), (2, 1)]
 
 def BOUNDS(tier):
     return {'max_order': 3 if tier == 'quick' else 4, 'pad_widths': W, 'pad_values': [0.0, 3.0], 'cat_operands': [2, 3],
-            'dtypes': DTF}
+            'cat_uniform': 'orders 3..5, all modes n in {2,3}, all interior ranks r in {1,2} (operand j: r+j), every axis', 'dtypes': DTF}
 
 
 def cases(tier, seed):
